@@ -433,6 +433,32 @@ def run(repo='/repo', tier='quick'):
     coupdate.run(db, res, 'C07.k', [('z_stream_s', 'next_out', 'avail_out', 4, 'the output window of zlib is reset as a (pointer, size) pair'), ('z_stream_s', 'avail_out', 'next_out', 4, 'the output window of zlib is reset as a (pointer, size) pair'),
                                      ('z_stream_s', 'next_in', 'avail_in', 3, 'the input window of zlib is set as a (pointer, size) pair'), ('z_stream_s', 'avail_in', 'next_in', 3, 'the input window of zlib is set as a (pointer, size) pair')],
                   'fields that change together: the zlib output pointer and the space left behind it are always reset in the same step (a lone reset lets inflate write through a stale pointer or report a wrong amount of output)')
+    # ---- C07.l the time budget is measured from a clock that was started
+    res.rule('C07.l', 'the decompression time budget is charged against a started clock: every call that hands body data to a decompressor chain (htp_gzip_decompressor_decompress from the body entry points) is dominated by a store of the current time into that decompressor\'s time_before, the field the decompressor callbacks charge elapsed time against')
+    readers = [n for n, f in db.fn.items() if f.blocks and any(x.get('field') == 'time_before' for st in f.stmts() for x in nodes(st[2], lambda y: y.get('k') == 'member')) and any(c.get('callee') == 'htp_timer_track' for b_, i_, c in f.calls('htp_timer_track'))]
+    res.floor('C07.l', 'callbacks that charge elapsed time against time_before', len(readers), 2)
+    nl = 0
+    for n, f in sorted(db.fn.items()):
+        if not f.blocks or f.loc.startswith('htp/htp_decompressors.c'):
+            continue
+        dom = None
+        for b, i, c in f.calls('htp_gzip_decompressor_decompress'):
+            X = P.K(c['args'][0])
+            nl += 1
+            dom = dom or C.dominators(f)
+            started = False
+            for b2, i2, st2 in f.stmts():
+                if not ((b2 in dom[b] and b2 != b) or (b2 == b and i2 < i)):
+                    continue
+                for c2 in nodes(st2, lambda y: y.get('k') == 'call' and y.get('callee') == 'gettimeofday'):
+                    if P.K(c2['args'][0]) == '&%s->time_before' % X:
+                        started = True
+                for w in nodes(st2, lambda y: y.get('k') == 'assign'):
+                    if P.K(w['l']) == '%s->time_before' % X:
+                        started = True
+            res.check(started, 'C07.l', '%s:decompress(%s)' % (n, X), 'time_before is set to the current time before the call',
+                      '%s hands data to the decompressor %s without having stored the current time in its time_before: the callback charges `now - time_before` to the budget, i.e. the time since the zero-initialised value (1970), truncated to 32 bits - whether an honest body is cut off as a "compression bomb" depends on the wall clock' % (n, X), c['loc'])
+    res.floor('C07.l', 'hand-overs of body data to a decompressor chain', nl, 2)
     return res
 
 
